@@ -64,15 +64,20 @@ class StreamControl:
     def stop_all_streams(self, error_code=ErrorCode.CANCELED, data=b''):
         logger().debug('Stopping all streams')
         for stream_id, stream in list(self._streams.items()):
-            if isinstance(stream, Requester):
-                frame = ErrorFrame()
-                frame.stream_id = stream_id
-                frame.error_code = error_code
-                frame.data = data
-                stream.frame_received(frame)
+            try:
+                if isinstance(stream, Requester):
+                    frame = ErrorFrame()
+                    frame.stream_id = stream_id
+                    frame.error_code = error_code
+                    frame.data = data
+                    stream.frame_received(frame)
 
-            if isinstance(stream, Disposable):
-                stream.dispose()
+                if isinstance(stream, Disposable):
+                    stream.dispose()
+            except Exception:
+                # an application callback that fails (a subscriber's on_error, a publisher's on_cancel)
+                # must not keep the remaining streams from being stopped
+                logger().error('Error while stopping stream %s', stream_id, exc_info=True)
 
             self.finish_stream(stream_id)
 
